@@ -259,7 +259,10 @@ def apply_ambient():
 
     def warn(message, category=None, stacklevel=1, *args, **kwargs):
         caller = sys._getframe(1).f_code.co_filename
-        if os.path.abspath(caller).startswith(lib_dir):
+        cat = type(message) if isinstance(message, Warning) else (category or UserWarning)
+        announcements = (DeprecationWarning, PendingDeprecationWarning, FutureWarning)
+        if os.path.abspath(caller).startswith(lib_dir) and not issubclass(cat, announcements):
+            # (deprecation notices are announcements about the API, not about this call going wrong)
             if isinstance(message, Warning):
                 raise message
             raise (category or UserWarning)(message)
